@@ -230,7 +230,9 @@ class Runner:
         # ---- C04/C05: no lock outlives an operation
         held = N.locks_held(net)
         if held:
-            P.append({"prop": "C05" if out.startswith("Err") else "C04", "what": "locks still held after the operation: %r" % (held,), "step": step})
+            # a lock that outlives its operation is a C04 failure; after a refused operation it is a C05 failure as well
+            for prop in (["C04", "C05"] if out.startswith("Err") else ["C04"]):
+                P.append({"prop": prop, "what": "locks still held after the operation: %r" % (held,), "step": step})
         # ---- C02: object graph
         bad = N.object_graph_invariant(net)
         if bad:
